@@ -848,6 +848,7 @@ def flw10(ctx):
                 continue
             m += 1
             conds = []
+            negated = set()          # conditions of early exits: the fallback is reached where they are FALSE
             x, child = fpar.get(id(node)), node
             while x is not None:
                 if x.get("e") == "if":
@@ -862,19 +863,21 @@ def flw10(ctx):
                         s0 = hirq.strip(s0) if isinstance(s0, dict) else s0
                         if isinstance(s0, dict) and s0.get("e") == "if" and s0.get("else") is None and any(y["e"] == "ret" for y in hirq.walk(s0["then"])):
                             conds.append(s0["cond"])
+                            negated.add(id(s0["cond"]))
                 child = x
                 x = fpar.get(id(x))
             def _mentions(c):
                 return any((mm["e"] == "path" and (mm.get("local") == "state_index" or mm.get("hid") in derived)) or (
                     mm["e"] == "mcall" and mm["name"] == "len" and expr_name(mm["recv"]) == ("local", states_p)) for mm in hirq.walk(c))
 
-            def _disjuncts(c):
+            def _split(c, op):
                 c = hirq.strip(c)
-                if isinstance(c, dict) and c.get("e") == "binary" and c.get("op") == "Or":
-                    return _disjuncts(c["a"]) + _disjuncts(c["b"])
+                if isinstance(c, dict) and c.get("e") == "binary" and c.get("op") == op:
+                    return _split(c["a"], op) + _split(c["b"], op)
                 return [c]
-            # the test must hold on every way into the fallback: each alternative of an `||` has to make it
-            tested = any(all(_mentions(d) for d in _disjuncts(c)) for c in conds)
+            # the test must hold on every way into the fallback: each alternative of an `||` has to make it; for an early
+            # exit `if A && B { return }` the fallback is reached under `!A || !B`, so there each conjunct has to
+            tested = any(all(_mentions(d) for d in _split(c, "And" if id(c) in negated else "Or")) for c in conds)
             r.inst("%s: the end-of-word insertion point is returned only under a test of how much of the context there is / was matched" % fname, fn_loc(fb, node["ln"]), "ok" if tested else "report")
             if not tested:
                 r.report("FLW-10|%s|fallback#%d" % (fname, m - 1), fn_loc(fb, node["ln"]), fb.path,
